@@ -61,10 +61,16 @@ def _real_body(stats):
         shard_i = int(os.environ.get("VERIF_SHARD", "0"))
         tmp = tempfile.mkdtemp(prefix="verif-c01-")
         p = dict(plan)
-        p.update({"port": 10000 + shard_i * 1300 + (n[0] % 12) * 100, "prefix": f"r{os.getpid() % 10000}x{n[0] % 1000}",
+        # a port block of its own (C05 uses 10000-30700), so that the two checks can run at the same time
+        p.update({"port": 2000 + shard_i * 450 + (n[0] % 12) * 36, "prefix": f"r{os.getpid() % 10000}x{n[0] % 1000}",
                   "marker": os.path.join(tmp, "m"), "grace_s": 15, "fault": {"where": "none"}})
         try:
             out = realcluster.run_plan(p, 60)
+            if out["verdict"] == "hang":  # confirm before believing a time-out (as C05 does)
+                n[0] += 1
+                p2 = dict(p)
+                p2.update({"port": 2000 + shard_i * 450 + (n[0] % 12) * 36, "prefix": f"r{os.getpid() % 10000}y{n[0] % 1000}"})
+                out = realcluster.run_plan(p2, 120)
         finally:
             shutil.rmtree(tmp, ignore_errors=True)
         if out["verdict"] == "harness-error":
